@@ -3,7 +3,7 @@ import EdVerif.Proofs.FeKernels3
 C09/C10 kernel layer, part 4: `SetBytes` / `SetWideBytes` against the little-endian value of the
 input bytes.
 
-`LE x = Σ_{i < x.size} x[i]! * 256^i`, defined through the prefix sums `LEpre x n = Σ_{i<n} x[i]! * 256^i`.
+`LEsum x = Σ_{i < x.size} x[i]! * 256^i`, defined through the prefix sums `LEpre x n = Σ_{i<n} x[i]! * 256^i`.
 -/
 namespace EdVerif.Proofs
 open EdVerif EdVerif.Prims EdVerif.Gen EdVerif.Impl
@@ -14,7 +14,7 @@ def LEpre (x : Bytes) : Nat → Nat
   | n+1 => LEpre x n + x[n]! * 256^n
 
 /-- little-endian value of a byte string: `Σ_{i < x.size} x[i]! * 256^i` -/
-def LE (x : Bytes) : Nat := LEpre x x.size
+def LEsum (x : Bytes) : Nat := LEpre x x.size
 
 theorem LEpre_lt (x : Bytes) (n : Nat) (hb : ∀ i, i < n → x[i]! < 256) : LEpre x n < 256^n := by
   induction n with
@@ -126,14 +126,14 @@ theorem SetBytes_spec (v : Prims.Fe) (x : Bytes) (hb : ∀ i, i < 32 → x[i]! <
   exact digits51 _
 
 theorem setBytes_spec (x : Bytes) (hx : x.size = 32) (hb : ∀ i, i < 32 → x[i]! < 256) :
-    ∃ e, Fe.setBytes x = some e ∧ Lt51 e ∧ val e = LE x % 2^255 := by
+    ∃ e, Fe.setBytes x = some e ∧ Lt51 e ∧ val e = LEsum x % 2^255 := by
   refine ⟨Field.SetBytes Fe.rz x, ?_, ?_⟩
   · simp [Fe.setBytes, hx, Field.SetBytes_reqLen]
   · have h := SetBytes_spec Fe.rz x hb
-    rw [LE, hx]
+    rw [LEsum, hx]
     exact h
 
-theorem setBytes_none (x : Bytes) (hx : x.size ≠ 32) : Fe.setBytes x = none := by
+theorem fe_setBytes_none (x : Bytes) (hx : x.size ≠ 32) : Fe.setBytes x = none := by
   simp [Fe.setBytes, hx, Field.SetBytes_reqLen]
 
 
@@ -181,7 +181,7 @@ theorem wide_sum (Nlo Nhi : Nat) (_hlo : Nlo < 2^256) (_hhi : Nhi < 2^256) :
 
 theorem SetWideBytes_spec (v : Prims.Fe) (x : Bytes) (hx : x.size = 64)
     (hb : ∀ i, i < 64 → x[i]! < 256) :
-    Tight (Field.SetWideBytes v x) ∧ val (Field.SetWideBytes v x) ≡ LE x [MOD P] := by
+    Tight (Field.SetWideBytes v x) ∧ val (Field.SetWideBytes v x) ≡ LEsum x [MOD P] := by
   have glo : ∀ i, i < 32 → (Bin.slice x 0 32)[i]! = x[i]! := by
     intro i hi
     have h := extract_get x 0 32 i (by omega)
@@ -200,8 +200,8 @@ theorem SetWideBytes_spec (v : Prims.Fe) (x : Bytes) (hx : x.size = 64)
   obtain ⟨mhi, nhi⟩ := msb_eq _ bhi
   rw [glo 31 (by omega)] at mlo
   rw [ghi 31 (by omega)] at mhi
-  have hN : LE x = LEpre (Bin.slice x 0 32) 32 + 256^32 * LEpre (Bin.slice x 32 x.size) 32 := by
-    have e1 : LE x = LEpre x (32 + 32) := by rw [LE, hx]
+  have hN : LEsum x = LEpre (Bin.slice x 0 32) 32 + 256^32 * LEpre (Bin.slice x 32 x.size) 32 := by
+    have e1 : LEsum x = LEpre x (32 + 32) := by rw [LEsum, hx]
     rw [e1, LEpre_add x _ 32 32 ghi, LEpre_congr _ x 32 glo]
   simp only [Field.SetWideBytes, hlo, hhi, U.add, U.mul, ushr_div]
   rw [mlo, mhi, hN]
@@ -232,11 +232,11 @@ theorem SetWideBytes_spec (v : Prims.Fe) (x : Bytes) (hx : x.size = 64)
   rw [Nat.add_mul_mod_self_right]
 
 theorem setWideBytes_spec (x : Bytes) (hx : x.size = 64) (hb : ∀ i, i < 64 → x[i]! < 256) :
-    ∃ e, Fe.setWideBytes x = some e ∧ Tight e ∧ val e ≡ LE x [MOD P] := by
+    ∃ e, Fe.setWideBytes x = some e ∧ Tight e ∧ val e ≡ LEsum x [MOD P] := by
   refine ⟨Field.SetWideBytes Fe.rz x, ?_, SetWideBytes_spec Fe.rz x hx hb⟩
   simp [Fe.setWideBytes, hx, Field.SetWideBytes_reqLen]
 
-theorem setWideBytes_none (x : Bytes) (hx : x.size ≠ 64) : Fe.setWideBytes x = none := by
+theorem fe_setWideBytes_none (x : Bytes) (hx : x.size ≠ 64) : Fe.setWideBytes x = none := by
   simp [Fe.setWideBytes, hx, Field.SetWideBytes_reqLen]
 
 end EdVerif.Proofs
